@@ -300,3 +300,14 @@ Fixpoint all_data (l : list event) : str :=
 
 Definition no_removable (remove : list str) (l : list event) : bool :=
   forallb (fun e => match e with Start g _ => negb (mem_str g remove) | _ => true end) l.
+
+(* ------------------------------------------------------------------ no removable element in the tree *)
+Section NodeOk.
+  Variable remove : list str.
+  Fixpoint node_ok (n : node) : bool :=
+    match n with
+    | Node t _ _ k _ =>
+        negb (mem_str t remove) &&
+        (fix all (l : list node) : bool := match l with [] => true | c :: r => node_ok c && all r end) k
+    end.
+End NodeOk.
